@@ -209,7 +209,7 @@ func e2eRun(o *Out, kind string, cfg eCfg, reqs []eReq) {
 	rec.inner = middleware.NewLogic(middleware.ResponseConfig{AnnounceInterval: time.Duration(cfg.Interval), MinAnnounceInterval: time.Duration(cfg.MinIntv)}, store, nil, nil)
 	uf := udp.VerifNewOffline(rec, udp.Config{PrivateKey: cfg.Key, MaxClockSkew: time.Duration(cfg.SkewNs),
 		ParseOptions: udp.ParseOptions{AllowIPSpoofing: cfg.USpoof, MaxNumWant: cfg.MaxNW, DefaultNumWant: cfg.DefNW, MaxScrapeInfoHashes: cfg.MaxScrape}})
-	hh := httpfe.VerifHandler(rec, httpfe.Config{Addr: "127.0.0.1:0", AnnounceRoutes: []string{"/announce", "/a/:k/announce"}, ScrapeRoutes: []string{"/scrape"},
+	hh, hstop := httpfe.VerifHandler(rec, httpfe.Config{Addr: "127.0.0.1:0", AnnounceRoutes: []string{"/announce", "/a/:k/announce"}, ScrapeRoutes: []string{"/scrape"},
 		ParseOptions: httpfe.ParseOptions{AllowIPSpoofing: cfg.HSpoof, RealIPHeader: cfg.HdrName, MaxNumWant: cfg.MaxNW, DefaultNumWant: cfg.DefNW, MaxScrapeInfoHashes: cfg.MaxScrape}})
 	clock := int64(0)
 	var terms []string
@@ -382,6 +382,8 @@ func e2eRun(o *Out, kind string, cfg eCfg, reqs []eReq) {
 		return map[string]interface{}{"cfg": cfg, "reqs": jr}
 	})
 	<-store.Stop()
+	<-uf.Stop()
+	hstop()
 	cancelStop()
 	cc := fmt.Sprintf("{| e_key := %s; e_skew := %s; e_uspoof := %s; e_hspoof := %s; e_hdrname := %s; e_maxnw := %d; e_defnw := %d; e_maxscrape := %d; e_interval := %s; e_min_interval := %s |}",
 		cB([]byte(cfg.Key)), cZ(cfg.SkewNs), cBool(cfg.USpoof), cBool(cfg.HSpoof), cB([]byte(cfg.HdrName)), cfg.MaxNW, cfg.DefNW, cfg.MaxScrape, cZ(cfg.Interval), cZ(cfg.MinIntv))
